@@ -57,7 +57,8 @@ Definition max_password_len : Z := 72.
 Inductive fault := NoFault | NotFound | IOErr.
 Definition faultplan := list fault.
 
-Definition session_max_age : Z := 3600.
+(* sessionMaxAge = time.Hour; the clock counts nanoseconds *)
+Definition session_max_age : Z := 3600000000000.
 
 (* ---------- association lists ---------- *)
 Fixpoint alookup {A} (k : string) (l : list (string * A)) : option A :=
@@ -119,7 +120,7 @@ Record sstate := {
   services : list (string * spmeta);     (* /services/*  keyed by service id *)
   shortcuts : list (string * string);    (* /shortcuts/* name -> SP entity ID *)
   registry : list (string * spmeta);     (* Server.serviceProviders, keyed by entity ID (in memory) *)
-  clock : Z;                             (* seconds *)
+  clock : Z;                             (* nanoseconds *)
   rand : Z;                              (* sessions created so far: next identifier is sid rand *)
   authlog : list (string * string)       (* ghost: (session id, user) of every successful password authentication *)
 }.
@@ -608,11 +609,26 @@ Fixpoint agree_run (s : sstate H0) (h : list op) (fp : faultplan) (obs : list or
       oreply_eqb (obs_of_model rs) ob && agree_run s' h' fp' obs'
   | _, _ => false
   end.
+(* the converse direction, on the observed reply: where the model issues an
+   assertion (valid credentials, registered SP, no fault — see
+   IdpServerProofs.sso_issues / launch_issues) the implementation must issue the
+   same one; a refusal, an error or no reply there fails the property's "a session
+   is valid until it expires / the form goes to the registered POST endpoint" *)
+Definition issue_okb (rs : list (reply H0)) (ob : oreply) : bool :=
+  match rs with
+  | r :: _ =>
+      match r_body r with
+      | BAssertion a => match r_body (o_rep ob) with BAssertion a' => assertion_eqb a a' | _ => false end
+      | _ => true
+      end
+  | [] => true
+  end.
+
 Fixpoint spec_run (s : sstate H0) (h : list op) (fp : faultplan) (obs : list oreply) : bool :=
   match h, obs with
   | o :: h', ob :: obs' =>
-      let '(s', _, fp') := step0 s o fp in
-      spec_step s o ob && spec_run s' h' fp' obs'
+      let '(s', rs, fp') := step0 s o fp in
+      spec_step s o ob && issue_okb rs ob && spec_run s' h' fp' obs'
   | _, _ => true
   end.
 
